@@ -568,6 +568,14 @@ func (ex *Exec) evalCall(e *Expr, env *Env) Val {
 				unsup("contract: same() needs slices or strings")
 			}
 			return ex.boolV(ts.And(ts.Eq(x.Base, y.Base), ts.Eq(x.Off, y.Off), ts.Eq(x.Len, y.Len)))
+		case "disjoint":
+			// disjoint(a, b): the two slices do not share a backing object (a nil slice shares nothing)
+			x, okx := ex.eval1(args[0], env).(SliceV)
+			y, oky := ex.eval1(args[1], env).(SliceV)
+			if !okx || !oky {
+				unsup("contract: disjoint() needs slices")
+			}
+			return ex.boolV(ts.Or(ts.Eq(x.Base, ts.Int(0)), ts.Eq(y.Base, ts.Int(0)), ts.Neq(x.Base, y.Base)))
 		case "inmap", "mapat":
 			// inmap(m, kid) / mapat(m, kid): map m at an abstract key identity kid (use with `forall kid ref :: ...`)
 			mv := ex.eval1(args[0], env)
